@@ -188,6 +188,59 @@ build_corpus(struct corpus *c, int max, vh_rng *rg, int small)
     }
     make_corpus_frame(&c[n++], RT_META, 0, 0, 1, 0, 0, rg);
     make_corpus_frame(&c[n++], RT_META, 0, 0, 2, 0, 0, rg);
+    /* frames whose checksum fields hold remarkable values: payload checksum 0x0000 (all-zero payload; payload
+     * that ends in its own checksum), payload checksum 0xffff, header checksum 0x0000 and 0xffff, header
+     * checksum equal to the payload checksum */
+    for (int sp = 0; sp < 6 && n + 1 < max; sp++) {
+        struct rframe f;
+        unsigned char pl[16];
+        memset(&f, 0, sizeof f);
+        f.type = sp == 4 ? RT_READ_REQ : RT_WRITE_REQ;
+        int w16 = sp & 1;
+        f.options = (w16 ? ROPT_W16 : 0) | ROPT_HDCRC | (f.type == RT_WRITE_REQ ? ROPT_PLCRC : 0);
+        f.addr = (uint32_t)vh_rand(rg);
+        f.plen = f.type == RT_WRITE_REQ ? 8 : 0;
+        f.bsize = f.type == RT_WRITE_REQ ? (uint32_t)(f.plen / (w16 ? 2 : 1)) : 3;
+        f.payload = pl;
+        uint16_t want_pl = 0, want_hd = 0;
+        int fix_pl = 0, fix_hd = 0, hd_eq_pl = 0;
+        const char *what;
+        switch (sp) {
+        case 0: memset(pl, 0, sizeof pl); what = "all-zero payload (payload checksum 0000)"; break;
+        case 1: fix_pl = 1; want_pl = 0x0000; what = "payload ending in its own checksum (payload checksum 0000)"; break;
+        case 2: fix_pl = 1; want_pl = 0xffff; what = "payload checksum ffff"; break;
+        case 3: fix_hd = 1; want_hd = 0x0000; what = "header checksum 0000"; break;
+        case 4: fix_hd = 1; want_hd = 0xffff; what = "header checksum ffff (read request)"; break;
+        default: hd_eq_pl = 1; what = "header checksum equal to payload checksum"; break;
+        }
+        if (sp != 0)
+            for (size_t i = 0; i < f.plen; i++)
+                pl[i] = (unsigned char)vh_rand(rg);
+        if (fix_pl) {
+            /* the last two payload octets are free: search them */
+            int found = 0;
+            for (unsigned v = 0; v < 65536 && !found; v++) {
+                pl[6] = (unsigned char)v;
+                pl[7] = (unsigned char)(v >> 8);
+                found = rp_crc(0, pl, 8) == want_pl;
+            }
+            if (!found)
+                continue;
+        }
+        int ok = 0;
+        for (unsigned sq = 0; sq < 65536 && !ok; sq++) {
+            f.seq = (uint16_t)sq;
+            c[n].n = rp_encode_raw(&f, c[n].raw);
+            uint16_t hd = (uint16_t)(c[n].raw[12] << 8 | c[n].raw[13]);
+            uint16_t plc = f.plen ? (uint16_t)(c[n].raw[14] << 8 | c[n].raw[15]) : 0;
+            ok = fix_hd ? hd == want_hd : hd_eq_pl ? hd == plc : 1;
+        }
+        if (!ok)
+            continue;
+        snprintf(c[n].name, sizeof c[n].name, "%.47s", what);
+        n++;
+        vh_countf("corpus frame with %s", what);
+    }
     return n;
 }
 
@@ -724,7 +777,10 @@ harness_run(void)
                                  "wire damage class: burst of 2..16 bits",
                                  "wire damage making regp_recv fail before the end of the input (illegal escape)",
                                  "wire damage leaving no intact request", "wire damage leaving one intact request",
-                                 "wire damage leaving two intact requests" };
+                                 "wire damage leaving two intact requests",
+                                 "corpus frame with all-zero payload (payload checksum 0000)",
+                                 "corpus frame with payload ending in its own checksum (payload checksum 0000)",
+                                 "corpus frame with header checksum 0000" };
     for (size_t i = 0; i < sizeof req / sizeof req[0]; i++)
         vh_require(req[i]);
 }
